@@ -113,8 +113,10 @@ Theorem C12_remove_urr_termr : forall e i c inf,
   snd (remove_urr e (Some i) c) =
     (if remove_ok c KURR i then map (or_trig USAR_TRIG_TERMR) (usage e DRemove i) else []) /\
   c_out (fst (remove_urr e (Some i) c)) = c_out c ++ [ODrv DRemove KURR (s_lid (c_s c)) i (remove_ok c KURR i)] /\
-  exists inf', alookup i (s_urrs (c_s (fst (remove_urr e (Some i) c)))) = Some inf' /\ ui_removed inf' = true /\
-               ui_seqn inf' = ui_seqn inf /\ ui_ref inf' = ui_ref inf.
+  (if remove_keeps e c i     (* the removal failed, or a returned (final) report names the URR *)
+   then exists inf', alookup i (s_urrs (c_s (fst (remove_urr e (Some i) c)))) = Some inf' /\ ui_removed inf' = true /\
+                     ui_seqn inf' = ui_seqn inf /\ ui_ref inf' = ui_ref inf
+   else alookup i (s_urrs (c_s (fst (remove_urr e (Some i) c)))) = None).
 Proof. exact remove_urr_termr. Qed.
 Print Assumptions C12_remove_urr_termr.
 
